@@ -403,6 +403,57 @@ func c10CheckData(w *verifWorld, i int, raw []byte, fromSend []byte) (fs []verif
 	return
 }
 
+// c10CheckTrain: the pieces of one fragmented message, as the specification prescribes them: piece k of n carries
+// index k, every piece announces the same total n, and exactly n pieces are sent
+func c10CheckTrain(who string, g [][]byte) (fs []verifFinding) {
+	if len(g) == 0 {
+		return
+	}
+	if _, ok := refParseFragment(g[0]); !ok {
+		return // not a fragment train
+	}
+	for k, u := range g {
+		f, ok := refParseFragment(u)
+		if !ok {
+			return []verifFinding{{"C10:fragment-train", fmt.Sprintf("%s emitted a fragment train whose piece %d does not parse: %q", who, k+1, verifTrunc(u))}}
+		}
+		if f.K != k+1 || f.N != len(g) {
+			return []verifFinding{{"C10:fragment-train", fmt.Sprintf("%s emitted %d piece(s); piece %d is labelled %d of %d", who, len(g), k+1, f.K, f.N)}}
+		}
+	}
+	return
+}
+
+// c10FragmentSweep: every fragment size in a window that contains all alignments of piece size and message length
+func c10FragmentSweep(r *verifReport) {
+	n := 0
+	for _, v := range []int{3, 2} {
+		w0 := verifEstablished(r.Seed, v, 0)
+		for size := 20; size <= 340; size++ {
+			w := w0.clone()
+			w.P[0].C.SetFragmentSize(uint16(size))
+			res := w.P[0].Send([]byte("a text that is long enough to need a handful of pieces at every size in the window"))
+			n++
+			r.Evals++
+			r.Nontrivial++
+			for _, g := range verifGroupUnits(res.Out) {
+				for _, f := range c10CheckTrain("A", g) {
+					r.addCase("C10", f.Sig, f.Detail+fmt.Sprintf(" (v%d, fragment size %d)", v, size), map[string]int{"version": v, "fragment_size": size})
+				}
+				if len(g) > 1 {
+					whole := verifReassemble(g)
+					if raw, ok := ref.Unarmor(whole); !ok {
+						r.addCase("C10", "C10:fragment-train", fmt.Sprintf("v%d size %d: the reassembled pieces are not an armoured message", v, size), map[string]int{"version": v, "fragment_size": size})
+					} else if _, _, ok := ref.ParseHeader(raw); !ok {
+						r.addCase("C10", "C10:fragment-train", fmt.Sprintf("v%d size %d: the reassembled message has no valid header", v, size), map[string]int{"version": v, "fragment_size": size})
+					}
+				}
+			}
+		}
+	}
+	r.Extra["fragment_sweep_sends"] = n
+}
+
 func c10HMAC1(key, data []byte) []byte {
 	return c02MAC(key, nil, data)
 }
@@ -507,6 +558,7 @@ func verifC10Sys(id string, seed int64) *verifSys {
 	emit := func(w *verifWorld, i int, r verifResult, fromSend []byte) (fs []verifFinding) {
 		c10Absorb(&w.Mon.(*monC10).P[i], w.P[i])
 		for _, g := range verifGroupUnits(r.Out) {
+			fs = append(fs, c10CheckTrain(w.P[i].Name, g)...)
 			for _, u := range g {
 				if len(g) > 1 {
 					if f, ok := refParseFragment(u); !ok || f.V3 != (v == 3) || (f.V3 && f.Snd != w.P[i].C.ourInstanceTag) {
@@ -896,6 +948,15 @@ func verifNth(xs [][]byte, n int) []byte {
 func init() {
 	verifChecks["C10"] = &verifCheck{
 		Level: "model_checking",
+		ReplayCase: func(cj string, seed int64) []verifFinding {
+			tmp := &verifReport{Prop: "C10", Seed: seed, Tier: "quick", Outcomes: map[string]int64{}, Extra: map[string]interface{}{}}
+			c10FragmentSweep(tmp)
+			var fs []verifFinding
+			for _, v := range tmp.Violations {
+				fs = append(fs, verifFinding{v.Sig, v.Detail})
+			}
+			return fs
+		},
 		Build: func(id string, seed int64) *verifSys {
 			if strings.HasPrefix(id, "peer/") {
 				return verifC10bSys(id, seed)
@@ -903,7 +964,7 @@ func init() {
 			return verifC10Sys(id, seed)
 		},
 		Run: func(r *verifReport) {
-			r.Rule = "(a) explicit-state exploration of honest session histories from the query on (one or both sides asking, texts both ways with key rotation, SMP, extra symmetric key, End; fragmented or not; every delivery interleaving): EVERY emitted message is parsed by the independent implementation verifref (standard library only, written from the specification) and re-derived from both sides' secrets, which are found in the logs of the randomness sources by verification (g^d, commitment hash), never by call site: commit hash and ciphertext, D-H key, SSID, c/c', m1/m1', m2/m2', the decrypted signature block (long-term key, key id, DSA signature validity over M), data-message key ids per the specification's ratchet, next D-H key, counter, session keys with the high/low-end rule, MAC, plaintext layout, extra symmetric key, and the whole data message rebuilt byte for byte; every SMP TLV (1, 1Q, 2, 3, 4) is parsed (MPI counts, minimal MPIs), its group elements and D values range-checked, its zero-knowledge proofs verified with the specification's equations, and its values re-derived from the sender's randomness log: g2a, g3a, g2b, g3b as g1^x for logged x, c/D pairs as H(i, g1^r), r - x*c mod q for logged r, Pa/Pb = g3^r4, Qa/Qb = g1^r4 * g2^secret with secret = SHA256(1, initiator fingerprint, responder fingerprint, ssid, user secret), Ra/Rb = (Qa/Qb)^a3/b3, and Rb^a3 = Pa/Pb for equal secrets; (b) a reference peer written from the specification talks to the real conversation in both exchange roles: all interleavings of texts both ways, extra-key requests both ways and End: everything the reference builds must be accepted and read exactly, and vice versa; SSID, fingerprint and extra keys must agree"
+			r.Rule = "(a) explicit-state exploration of honest session histories from the query on (one or both sides asking, texts both ways with key rotation, SMP, extra symmetric key, End; fragmented or not; every delivery interleaving): EVERY emitted message is parsed by the independent implementation verifref (standard library only, written from the specification) and re-derived from both sides' secrets, which are found in the logs of the randomness sources by verification (g^d, commitment hash), never by call site: commit hash and ciphertext, D-H key, SSID, c/c', m1/m1', m2/m2', the decrypted signature block (long-term key, key id, DSA signature validity over M), data-message key ids per the specification's ratchet, next D-H key, counter, session keys with the high/low-end rule, MAC, plaintext layout, extra symmetric key, and the whole data message rebuilt byte for byte; every fragment train is labelled 1..n of n with exactly n pieces (also for every fragment size 20..340); every SMP TLV (1, 1Q, 2, 3, 4) is parsed (MPI counts, minimal MPIs), its group elements and D values range-checked, its zero-knowledge proofs verified with the specification's equations, and its values re-derived from the sender's randomness log: g2a, g3a, g2b, g3b as g1^x for logged x, c/D pairs as H(i, g1^r), r - x*c mod q for logged r, Pa/Pb = g3^r4, Qa/Qb = g1^r4 * g2^secret with secret = SHA256(1, initiator fingerprint, responder fingerprint, ssid, user secret), Ra/Rb = (Qa/Qb)^a3/b3, and Rb^a3 = Pa/Pb for equal secrets; (b) a reference peer written from the specification talks to the real conversation in both exchange roles: all interleavings of texts both ways, extra-key requests both ways and End: everything the reference builds must be accepted and read exactly, and vice versa; SSID, fingerprint and extra keys must agree"
 			r.Assumptions = []string{"verifref shares with otr3 only the Go standard library (crypto/dsa, aes, sha, hmac, math/big)", "signature bytes are verified, not re-derived (DSA is randomised)"}
 			idsA := []string{"v3/f0/S2/nosmp", "v2/f0/S1/smp", "v3/f0/S1/smp", "v3/f200/S1/nosmp", "v3/f0/S2/refresh", "v2/f0/S1/refresh", "v3/f0/S2/tiny", "v2/f0/S2/tiny"}
 			idsB := []string{"peer/v3/refinit/f0/S2", "peer/v3/realinit/f0/S1", "peer/v2/refinit/f0/S1", "peer/v2/realinit/f150/S1"}
@@ -911,6 +972,7 @@ func init() {
 				idsA = []string{"v2/f150/S1/smp", "v3/f200/S2/nosmp", "v2/f0/S2/refresh", "v3/f0/S2/refresh", "v2/f0/S2/smp", "v3/f0/S3/nosmp", "v3/f0/S3/tiny", "v2/f0/S3/tiny"}
 				idsB = []string{"peer/v3/refinit/f0/S3", "peer/v3/realinit/f0/S3", "peer/v2/refinit/f0/S3", "peer/v2/realinit/f0/S3", "peer/v3/realinit/f150/S2", "peer/v2/refinit/f150/S2"}
 			}
+			c10FragmentSweep(r)
 			for _, id := range idsB {
 				r.explore(verifC10bSys(id, r.Seed))
 			}
